@@ -6,7 +6,10 @@ Work = number of `sys.monitoring` LINE events delivered for code objects whose f
 For every family F and configuration, on the chain n, 2n, 4n, 8n:
 
     terminates      the call returns within STEP_BUDGET counted steps (no exception either)
-    growth-factor   steps(F(2n)) <= 6 * steps(F(n))
+    growth-factor   steps(F(2n)) <= 6 * max(steps(F(n)), 2000)
+                    (below 2000 steps the count is dominated by fixed costs and by regime changes - a string that starts
+                    to be split over lines costs 6.1x once and 2x per doubling from then on; a super-polynomial family
+                    passes the floor at a later link of the chain and is judged there)
 
 A chain stops at the first call that exhausts the budget (every later member is at least as large);
 the ratio reported for such a link is a lower bound (budget / steps(F(n))).
@@ -28,6 +31,7 @@ from prettyprinter import is_registered  # noqa: E402
 
 PKG_DIR = os.path.join(os.path.dirname(os.path.abspath(pp.__file__)), '')
 FACTOR = 6
+FLOOR = 2000
 RECURSION_LIMIT = 12000
 BUDGET = {'quick': 20_000_000, 'thorough': 40_000_000}
 
@@ -271,13 +275,13 @@ def run_chain(chain):
             pn, psteps = prev
             gcase = dict(proto, check='growth', n=pn)
             acc['evaluations'] += 1
-            if steps > FACTOR * psteps:
+            if steps > FACTOR * max(psteps, FLOOR):
                 acc['violations'].append({
                     'kind': 'growth-factor', 'case': gcase,
                     'observed': 'steps(F(%d))=%d, steps(F(%d))%s%d, ratio %s%.1f' % (
                         pn, psteps, n, '>=' if status == 'budget' else '=', steps,
                         '>=' if status == 'budget' else '', steps / max(psteps, 1)),
-                    'expected': 'steps(F(2n)) <= %d * steps(F(n))' % FACTOR,
+                    'expected': 'steps(F(2n)) <= %d * max(steps(F(n)), %d)' % (FACTOR, FLOOR),
                     'tags': tags_of(proto)})
             if status == 'ok' and steps > 10000 and out is not None and '\n' in out:
                 acc['nontrivial'].add('%s|%s|%s|%d' % (chain['family'], ','.join(chain.get('recipe', [])),
@@ -353,6 +357,6 @@ def replay(case):
     if st1 != 'ok':
         return {'violated': True, 'detail': 'F(%d) itself: %s after %d steps' % (n, st1, s1)}
     s2, st2, _o, _t = measure(proto, 2 * n)
-    return {'violated': s2 > FACTOR * s1,
+    return {'violated': s2 > FACTOR * max(s1, FLOOR),
             'detail': 'steps(F(%d))=%d, steps(F(%d))%s%d (%s), ratio %.1f, allowed %d' % (
                 n, s1, 2 * n, '>=' if st2 == 'budget' else '=', s2, st2, s2 / max(s1, 1), FACTOR)}
